@@ -115,6 +115,7 @@ func cmdRun(args []string) {
 	}
 	var mu sync.Mutex
 	var wg sync.WaitGroup
+	foundViol := false
 	for k := 0; k < nw; k++ {
 		wg.Add(1)
 		go func() {
@@ -132,6 +133,14 @@ func cmdRun(args []string) {
 			}
 			defer w.Close()
 			for j := range jobs {
+				// fail fast: once an instance has produced a counterexample no further
+				// instance is started (a changed tree can make the remaining ones very slow)
+				mu.Lock()
+				stop := foundViol
+				mu.Unlock()
+				if stop {
+					continue
+				}
 				fn := e.Func(modPath+"/"+j.in.Pkg, j.in.Fn)
 				if fn == nil {
 					mu.Lock()
@@ -157,6 +166,14 @@ func cmdRun(args []string) {
 					fmt.Printf("  %-40s paths=%-5d steps=%-8d %v viol=%d %.1fs\n", res.Name(), res.Paths, res.Steps, res.Status, len(res.Violations), time.Since(t1).Seconds())
 				}
 				rr.results[j.i] = res
+				for _, v := range res.Violations {
+					if v.InKnown == "" {
+						mu.Lock()
+						foundViol = true
+						mu.Unlock()
+						break
+					}
+				}
 			}
 			mu.Lock()
 			for name, st := range w.SolverStats() {
@@ -287,6 +304,17 @@ func finish(rr *runResult, noReplay bool, t0 time.Time) {
 	var violLines []string
 	perLabel := map[string]int{}
 	os.MkdirAll(filepath.Join(verifDir, "replays", id), 0o755)
+	// tapes of earlier runs are stale: only this run's counterexamples remain
+	// (named tapes such as *.prefix.json, kept as records of repaired defects, stay)
+	if old, _ := filepath.Glob(filepath.Join(verifDir, "replays", id, "VH_*.json")); len(old) > 0 {
+		for _, f := range old {
+			os.Remove(f)
+		}
+	}
+	// one tape per known finding seen in this run, so that it can be replayed
+	for name, v := range known {
+		writeJSON(filepath.Join(verifDir, "replays", id, "known-"+sanitize(name)+".json"), v.Tape)
+	}
 	for _, v := range viols {
 		if perLabel[v.Label] >= 2 {
 			continue
@@ -358,7 +386,7 @@ func finish(rr *runResult, noReplay bool, t0 time.Time) {
 
 	// differential validation of the encoder on sampled path models
 	validated, valNotes := 0, []string{}
-	if !noReplay && !rr.spec.SkipValidate {
+	if !noReplay && !rr.spec.SkipValidate && confirmed == 0 {
 		n := rr.spec.ValidateN
 		if n == 0 {
 			n = 20
